@@ -37,7 +37,12 @@ def Hash.Ideal (H : Hash) : Prop := ∀ a b, H.sha a = H.sha b → a = b
 /-- `zipstream` on the sending side, `zipfile` extraction on the receiving side; `τ` = directory trees -/
 structure Zip (τ : Type) where
   zip : τ → Bytes
+  /-- `none` = the extraction raises: `zipfile.BadZipFile`, the `ValueError` of `_extract_file`'s guard, or an
+      `OSError` from creating a member (`zf.extract` / `os.chmod` are not guarded) -/
   unzip : Bytes → Option τ
+  /-- what a failing extraction has already put below the destination when it raises (members are unpacked
+      one by one, nothing is rolled back); `none` = nothing was created -/
+  partialTree : Bytes → Option τ := fun _ => none
 
 def Zip.Ideal {τ : Type} (Z : Zip τ) : Prop := ∀ t, Z.unzip (Z.zip t) = some t
 
@@ -228,7 +233,7 @@ def transferTail {τ : Type} (H : Hash) (Z : Zip τ) (s : Rx τ) : Rx τ :=
     else if received ≠ s.xfersize then { s with result := .failed .assertionError }
     else if s.dirMode then
       match writeDirectory Z s with
-      | .error e => { s with result := .failed e }
+      | .error e => { s with result := .failed e, final := (Z.partialTree s.disk).map Node.dir }
       | .ok s1 => closeTransit s1 datahash
     else closeTransit (writeFile s) datahash
   | _ => s
@@ -297,6 +302,8 @@ def toyHash : Hash := { sha := fun b => b }
 def toyZip : Zip Bytes := { zip := fun t => t, unzip := fun b => some b }
 /-- an archive the extraction refuses (`_extract_file` raises, or zipfile does) -/
 def toyZipRefuse : Zip Bytes := { zip := fun t => t, unzip := fun _ => none }
+/-- … after some members have been unpacked -/
+def toyZipRefusePartial : Zip Bytes := { zip := fun t => t, unzip := fun _ => none, partialTree := fun b => some b }
 
 def adler32 (b : Bytes) : Nat :=
   let (a, c) := b.foldl (fun (p : Nat × Nat) x => let a := (p.1 + x) % 65521; (a, (p.2 + a) % 65521)) (1, 0)
@@ -317,10 +324,12 @@ structure DrvSt where
   pending : List Bytes     -- records of the model sender not yet delivered
   hashed : Bytes
   refuse : Bool            -- the extraction will refuse the archive (`rx dir <n> refuse`)
+  partialX : Bool          -- … after having unpacked some members (`rx dir <n> refuse partial`)
 
-def drvInit : DrvSt := { rx := rxOpen 0 false none, pending := [], hashed := [], refuse := false }
+def drvInit : DrvSt := { rx := rxOpen 0 false none, pending := [], hashed := [], refuse := false, partialX := false }
 
-def DrvSt.zip (s : DrvSt) : Zip Bytes := if s.refuse then toyZipRefuse else toyZip
+def DrvSt.zip (s : DrvSt) : Zip Bytes :=
+  if s.refuse then (if s.partialX then toyZipRefusePartial else toyZipRefuse) else toyZip
 
 def readStrField? (t : String) : Option (Option String) :=
   if t == "none" then some none
@@ -343,19 +352,25 @@ def step (s : DrvSt) (line : String) : DrvSt × String :=
     match n.toNat? with
     | some x =>
       let rx : Rx Bytes := rxOpen x (mode == "dir") none
-      ({ s with rx := rx, refuse := false }, showRx rx)
+      ({ s with rx := rx, refuse := false, partialX := false }, showRx rx)
     | none => (s, "bad-op")
   | ["rx", "file", n, "stale", l] =>
     match n.toNat?, l.toNat? with
     | some x, some len =>
       let rx : Rx Bytes := rxOpen x false (some (List.replicate len 170))
-      ({ s with rx := rx, refuse := false }, showRx rx)
+      ({ s with rx := rx, refuse := false, partialX := false }, showRx rx)
     | _, _ => (s, "bad-op")
   | ["rx", "dir", n, "refuse"] =>
     match n.toNat? with
     | some x =>
       let rx : Rx Bytes := rxOpen x true none
-      ({ s with rx := rx, refuse := true }, showRx rx)
+      ({ s with rx := rx, refuse := true, partialX := false }, showRx rx)
+    | none => (s, "bad-op")
+  | ["rx", "dir", n, "refuse", "partial"] =>
+    match n.toNat? with
+    | some x =>
+      let rx : Rx Bytes := rxOpen x true none
+      ({ s with rx := rx, refuse := true, partialX := true }, showRx rx)
     | none => (s, "bad-op")
   | ["send", h] =>
     match fromHex? h with
